@@ -1,13 +1,13 @@
 // Rule R48: a &str is modelled by its UTF-8 byte slice. For an ASCII char c, str::strip_prefix(c) and str::starts_with(c)
 // look at the first byte only (in UTF-8 an ASCII byte is always a complete character); str::bytes() yields the bytes in
 // order and str::len() / is_empty() are those of the byte slice.
-//@ assume str::strip_prefix(ASCII char) : rule R48, std semantics on the UTF-8 bytes
+//@ assume str::strip_prefix(ascii_char) : rule R48, std semantics on the UTF-8 bytes
 #[verifier::external_body]
 pub fn __strip_prefix_byte<'a>(s: &'a [u8], c: u8) -> (r: Option<&'a [u8]>)
     requires c < 128
     ensures r is Some <==> (s@.len() > 0 && s@[0] == c), r is Some ==> r.unwrap()@ == s@.subrange(1, s@.len() as int)
 { unimplemented!() }
-//@ assume str::starts_with(ASCII char) : rule R48, std semantics on the UTF-8 bytes
+//@ assume str::starts_with(ascii_char) : rule R48, std semantics on the UTF-8 bytes
 #[verifier::external_body]
 pub fn __starts_with_byte(s: &[u8], c: u8) -> (r: bool)
     requires c < 128
